@@ -46,6 +46,7 @@ pub struct Outcome {
 }
 
 pub fn search_k(board: &Board, k: u64, positional: bool) -> Result<Outcome, String> {
+    set_case(|| json!({"property": "C11", "case": {"kind": "search", "fen": board.to_string(), "k": k, "positional": positional}}).to_string());
     let r = std::panic::catch_unwind(|| {
         let mut engine = Engine::default();
         engine.positional = positional;
@@ -180,9 +181,13 @@ pub fn search_positions(tier: Tier) -> Vec<Position> {
 
 pub fn run_c11(args: &Args) -> i32 {
     let report = Report::new("C11", args.tier, args.seed, "fault_enumeration");
-    std::panic::set_hook(Box::new(|_| {}));
-    let positions = search_positions(args.tier);
-    let cap = args.tier.pick(3000u64, 30000);
+    silence_panics();
+    let mut positions = search_positions(args.tier);
+    let mut cap = args.tier.pick(3000u64, 30000);
+    if reduced() {
+        positions = positions.into_iter().step_by(4).collect();
+        cap = 1000;
+    }
     let res: Vec<(u64, u64, bool, Vec<(u64, Vec<Divergence>)>)> = positions.par_iter().map(|p| c11_sweep(p, cap, false, 3)).collect();
     let mut runs = 0u64;
     let mut capped = 0u64;
@@ -216,7 +221,7 @@ pub fn run_c11(args: &Args) -> i32 {
     // through the plugin boundary
     let (plugin_runs, plugin_positions) = crate::plugin::c11_through_plugin(&positions, args.tier, &report);
     runs += plugin_runs;
-    let _ = std::panic::take_hook();
+    restore_panics();
     if with_pass == 0 {
         machinery_failure("C11: no position completed a pass: the sweep is vacuous");
     }
@@ -379,8 +384,11 @@ pub fn c12_positions(tier: Tier) -> Vec<Position> {
 
 pub fn run_c12(args: &Args) -> i32 {
     let report = Report::new("C12", args.tier, args.seed, "exploration");
-    std::panic::set_hook(Box::new(|_| {}));
-    let positions = c12_positions(args.tier);
+    silence_panics();
+    let mut positions = c12_positions(args.tier);
+    if reduced() {
+        positions = positions.into_iter().step_by(5).collect();
+    }
     let mut with_mate = 0u64;
     let mut completed = 0u64;
     let mut runs = 0u64;
@@ -399,7 +407,7 @@ pub fn run_c12(args: &Args) -> i32 {
             report.record(d, || json!({"kind": "mate", "fen": p.to_fen(), "positional": positional}));
         }
     }
-    let _ = std::panic::take_hook();
+    restore_panics();
     if with_mate < 100 {
         machinery_failure("C12: fewer than 100 mate-in-one positions completed a pass: vacuous");
     }
@@ -476,7 +484,7 @@ pub fn c13_case(rp: &Position, cap: u64, max_depth: u16) -> (u64, Vec<Divergence
 
 pub fn run_c13(args: &Args) -> i32 {
     let report = Report::new("C13", args.tier, args.seed, "exploration");
-    std::panic::set_hook(Box::new(|_| {}));
+    silence_panics();
     let mut positions = search_positions(args.tier);
     // no promotion available at the root (property text); one representative per mirror pair
     positions.retain(|p| !p.legal_moves().iter().any(|m| m.promo.is_some()) && !p.mirror().legal_moves().iter().any(|m| m.promo.is_some()));
@@ -500,7 +508,7 @@ pub fn run_c13(args: &Args) -> i32 {
         *by_depth.entry(*c).or_insert(0) += 1;
         report.record(d, || json!({"kind": "symmetry", "fen": p.to_fen()}));
     }
-    let _ = std::panic::take_hook();
+    restore_panics();
     if compared < 100 {
         machinery_failure("C13: fewer than 100 (position, depth) comparisons: vacuous");
     }
@@ -522,7 +530,7 @@ pub fn run_c13(args: &Args) -> i32 {
 }
 
 pub fn replay(prop: &str, case: &Value) -> Vec<Divergence> {
-    std::panic::set_hook(Box::new(|_| {}));
+    silence_panics();
     let fen = case["fen"].as_str().unwrap();
     let rp = Position::from_fen(fen).unwrap();
     match prop {
